@@ -9,6 +9,7 @@ import (
 	"sort"
 	"strings"
 	"sync"
+	"sync/atomic"
 	"time"
 )
 
@@ -149,6 +150,21 @@ func runObligations(all []*Obligation, tmo int) {
 			defer wg.Done()
 			sem <- struct{}{}
 			defer func() { <-sem }()
+			if o.Expect == "sat" {
+				// cover (vacuity) checks: one solver, short budget; "unknown" is not a failure
+				n := atomic.AddInt64(&queryCounter, 1)
+				o.Result = runOne(solvers[0], o.Query, 3, n, false)
+				return
+			}
+			if o.QueryLite != "" && o.Expect == "unsat" {
+				n := atomic.AddInt64(&queryCounter, 1)
+				r := runOne(solvers[0], o.QueryLite, 3, n, false)
+				if r.Status == "unsat" {
+					r.Solver += " (quantifier-free fast path)"
+					o.Result = r
+					return
+				}
+			}
 			o.Result = runQuery(o.Query, tmo, o.Expect == "unsat")
 		}(o)
 	}
@@ -181,7 +197,11 @@ func report(rs []*FnResult, verbose bool) bool {
 				}
 			} else {
 				ok = false
-				fmt.Printf("  FAIL   %s / %s: %s (%s, %.2fs) at %s — %s\n", r.Display, o.Name, o.Result.Status, o.Result.Solver, o.Result.Seconds, o.Pos, o.Desc)
+				extra := ""
+				if o.Result.Status == "error" {
+					extra = " [" + trunc(strings.SplitN(o.Result.Output, "\n", 2)[0], 160) + "]"
+				}
+				fmt.Printf("  FAIL   %s / %s: %s%s (%s, %.2fs) at %s — %s\n", r.Display, o.Name, o.Result.Status, extra, o.Result.Solver, o.Result.Seconds, o.Pos, trunc(o.Desc, 140))
 			}
 		}
 		tag := "ok"
